@@ -36,10 +36,6 @@ TRUSTED = ["CPython ast parser", "PEP 479", "a for-loop consumes its iterator la
 
 CONCAT_FORMATS = ("xyz", "extxyz", "pdb", "mol2", "sdf", "gromacs")
 # content-based normal terminations that are part of the format (frozen, one line of reason each)
-ALLOWED_CONTENT_END = {
-    ("iodata.formats.xyz.load_many", "line.strip() == ''"): "an XYZ frame starts with the atom count; a blank line cannot start a frame",
-    ("iodata.formats.extxyz.load_many", "line.strip() == ''"): "an extended-XYZ frame starts with the atom count; a blank line cannot start a frame",
-}
 MATERIALIZERS = {"list", "tuple", "sorted", "len", "reversed", "set", "frozenset", "sum", "max", "min", "dict"}
 EXPLANATION += ' (R10) in the PDB frame parser only END / ENDMDL switch off the missing-END warning (the path condition of the flag assignment is evaluated for every PDB record name).'
 TECHNIQUE += '; finite-domain evaluation of the terminator flag'
@@ -222,11 +218,8 @@ def run(ctx):
                 if in_handler:
                     ctx.ok("R7", f"{short}.load_many: `{type(n).__name__.lower()}` inside an end-of-input handler", f"{g.module.relpath}:{n.lineno}")
                     continue
-                key = (g.qualname, " ".join(src_of(conds[0]).split()).replace('"', "'")) if conds else (g.qualname, "")
-                if key in ALLOWED_CONTENT_END:
-                    ctx.ok("R7", f"{short}.load_many: ends at `{key[1]}`: {ALLOWED_CONTENT_END[key]}", f"{g.module.relpath}:{n.lineno}")
-                else:
-                    ctx.violate("R7", f"{short}.load_many ends the sequence normally on file content (`{key[1]}`): later frames are dropped silently", g, n, construct=f"{type(n).__name__.lower()} if {key[1]}")
+                # whether file content may end the sequence here is decided by evaluation (check_sequence_end below)
+                ctx.ok("R7", f"{short}.load_many: `{type(n).__name__.lower()}` outside a handler: judged on the evaluated look-ahead", f"{g.module.relpath}:{n.lineno}", sample=False)
             for n in [x for s in floop.body for x in ast.walk(s) if isinstance(x, ast.Continue)]:
                 ctx.violate("R7", f"{short}.load_many skips frames with `continue`", g, n)
     ctx.floor("R2", nlm, 7, "format load_many generators")
@@ -320,6 +313,7 @@ def run(ctx):
     check_terminator_flag(ctx)
     ctx.rule("R11", "the look-ahead of a frame loop leaves the input unchanged (evaluated on a model LineIterator)", "lines put back in the wrong order, not at all or twice: the frame parser reads the count where the title is, a legal frame is rejected or mis-read")
     check_lookahead_transparency(ctx, "R11")
+    check_sequence_end(ctx, "R7")
 
     # dump side of R6
     ndm = 0
@@ -465,26 +459,23 @@ def check_terminator_flag(ctx):
 BLANK_FIRST_LINE = {"sdf": "the title line of a molfile may be empty", "gromacs": "the title line of a gro frame may be empty"}
 
 
-def check_lookahead_transparency(ctx, rid):
-    """The look-ahead of a frame loop leaves the input as it found it.
+LOOKAHEAD_FEEDS = {
+    "a frame": ["T\n", "2\n", "a\n", "b\n", "T2\n"],
+    "a frame whose first line is not a number": ["3x\n", "*\n", "a\n"],
+    "blank lines, then a frame": ["\n", "  \n", "T\n", "2\n", "a\n"],
+    "one blank line, then a frame": ["\n", "T\n", "2\n"],
+    "empty input": [],
+    "blank lines only": ["\n", " \n"],
+}
 
-    Each generator `load_many` is evaluated, up to its first `yield`, on a model `LineIterator` (the repository's own
-    class, evaluated too) fed with a few constant line sequences.  When the frame parser is reached, the lines it will
-    see -- the pushed-back stack, last in first out, followed by the rest of the input -- must be the input itself, in
-    order, less at most the leading blank lines, and the line counter must agree with what was consumed."""
+
+def lookahead_outcomes(prog):
+    """{format: (load_many, [(label, feed, outcome, stream, lineno)])} for every frame-concatenation generator."""
     from ..accessors import AccessorEval, Raised, Rec, Yielded
     from ..symarr import NotSymbolic
 
-    prog = ctx.prog
     licls = prog.cls("iodata.utils.LineIterator")
-    feeds = {
-        "a frame": ["T\n", "2\n", "a\n", "b\n", "T2\n"],
-        "blank lines, then a frame": ["\n", "  \n", "T\n", "2\n", "a\n"],
-        "one blank line, then a frame": ["\n", "T\n", "2\n"],
-        "empty input": [],
-        "blank lines only": ["\n", " \n"],
-    }
-    n = 0
+    out = {}
     for short, m in prog.format_modules().items():
         lm = prog.funcs.get(f"{m.name}.load_many")
         if lm is None or not lm.is_generator:
@@ -493,13 +484,11 @@ def check_lookahead_transparency(ctx, rid):
         lo1 = prog.funcs.get(f"{m.name}.load_one")
         if lo1 is None or not any(isinstance(x, ast.Yield) and isinstance(x.value, ast.Call) and any(cs.node is x.value and lo1 in cs.callees for cs in lm.calls) for x in lm.own_nodes()):
             continue
-        n += 1
-        bad = None
-        for label, feed in feeds.items():
+        rows = []
+        for label, feed in LOOKAHEAD_FEEDS.items():
             lit = Rec(licls, filename="FILE", fh=iter(list(feed)), lineno=0, stack=[])
             ev = AccessorEval(prog, licls, limit=2000)
             args = [lit] + [None] * (len(lm.posparams) - 1)
-            outcome = None
             try:
                 ev.run_free(lm, args, {})
                 outcome = "return"
@@ -509,22 +498,35 @@ def check_lookahead_transparency(ctx, rid):
                 outcome = f"raises {exc.args[0]}"
             except NotSymbolic as exc:
                 raise AnalysisError(f"{lm.qualname}: the look-ahead is outside the evaluation whitelist: {exc}") from exc
+            stream = list(reversed(lit.fields["stack"])) + list(lit.fields["fh"])
+            rows.append((label, feed, outcome, stream, lit.fields["lineno"]))
+        out[short] = (lm, rows)
+    return out
+
+
+def check_lookahead_transparency(ctx, rid):
+    """The look-ahead of a frame loop leaves the input as it found it.
+
+    Each generator `load_many` is evaluated, up to its first `yield`, on a model `LineIterator` (the repository's own
+    class, evaluated too) fed with a few constant line sequences.  When the frame parser is reached, the lines it will
+    see -- the pushed-back stack, last in first out, followed by the rest of the input -- must be the input itself, in
+    order, less at most the leading blank lines, and the line counter must agree with what was consumed."""
+    n = 0
+    for short, (lm, rows) in lookahead_outcomes(ctx.prog).items():
+        n += 1
+        bad = None
+        for label, feed, outcome, stream, lineno in rows:
             if outcome.startswith("raises"):
                 bad = f"{label}: the look-ahead {outcome} instead of yielding a frame or ending the sequence"
                 break
             if outcome == "return":
-                if any(ln.strip() for ln in feed):
-                    if short in BLANK_FIRST_LINE or feed[0].strip():
-                        bad = f"{label}: the sequence ends although a frame follows"
-                        break
-                continue
-            stream = list(reversed(lit.fields["stack"])) + list(lit.fields["fh"])
+                continue  # whether the sequence may end here is R7's clause
             k = len(feed) - len(stream)
             if k < 0 or stream != feed[k:] or any(ln.strip() for ln in feed[:k]):
                 bad = f"{label}: the frame parser will read {stream!r}, the input was {feed!r} (lines are lost, duplicated or out of order after the look-ahead)"
                 break
-            if lit.fields["lineno"] != k:
-                bad = f"{label}: {k} line(s) consumed by the look-ahead, but the line counter says {lit.fields['lineno']}"
+            if lineno != k:
+                bad = f"{label}: {k} line(s) consumed by the look-ahead, but the line counter says {lineno}"
                 break
             if k and short in BLANK_FIRST_LINE:
                 bad = f"{label}: {k} blank line(s) are dropped before the frame, but {BLANK_FIRST_LINE[short]}"
@@ -532,5 +534,26 @@ def check_lookahead_transparency(ctx, rid):
         if bad:
             ctx.violate(rid, f"{short}.load_many, {bad}", lm, lm.node, construct=f"{short}.load_many look-ahead: {bad}"[:180])
         else:
-            ctx.ok(rid, f"{short}.load_many: on {len(feeds)} inputs the frame parser sees the input unchanged after the look-ahead (or the sequence ends at end of input)", f"{lm.module.relpath}:{lm.lineno}")
+            ctx.ok(rid, f"{short}.load_many: on {len(rows)} inputs the frame parser sees the input unchanged after the look-ahead", f"{lm.module.relpath}:{lm.lineno}")
+    ctx.floor(rid, n, 6, "generator load_many functions")
+
+
+def check_sequence_end(ctx, rid):
+    """A frame loop ends normally only at end of input (evaluated): with anything but blank lines ahead the generator
+    goes on to the frame parser (which decides whether that is a frame); a blank line ends the sequence only in formats
+    whose frames cannot start with one."""
+    n = 0
+    for short, (lm, rows) in lookahead_outcomes(ctx.prog).items():
+        n += 1
+        bad = None
+        for label, feed, outcome, stream, lineno in rows:
+            if outcome != "return" or not any(ln.strip() for ln in feed):
+                continue
+            if feed[0].strip() or short in BLANK_FIRST_LINE:
+                bad = f"{label}: the sequence ends normally although {sum(1 for ln in feed if ln.strip())} non-blank line(s) follow: later frames (or a malformed frame that should be reported) are dropped silently"
+                break
+        if bad:
+            ctx.violate(rid, f"{short}.load_many, {bad}", lm, lm.node, construct=f"{short}.load_many ends on content: {bad}"[:180])
+        else:
+            ctx.ok(rid, f"{short}.load_many: the sequence ends only at end of input" + ("" if short in BLANK_FIRST_LINE else " or at a blank line (a frame of this format cannot start with one)"), f"{lm.module.relpath}:{lm.lineno}")
     ctx.floor(rid, n, 6, "generator load_many functions")
